@@ -247,7 +247,9 @@ class PhaseOrd(SymInt):
 
 
 VOIGT_ASSEMBLAGES = {"0": (0,), "1": (1,), "01": (0, 1), "10": (1, 0)}
-VOIGT_SIZES = ((1, 1, 1), (2, 1, 1), (1, 2, 1), (1, 1, 2), (2, 2, 2))      # (minerals, snapshots, grains)
+VOIGT_SIZES = ((1, 1, 1), (2, 1, 1), (1, 2, 1), (1, 1, 2))                 # (minerals, snapshots, grains)
+VOIGT_SIZES_A0 = ((2, 2, 1), (2, 1, 2))     # assemblage [olivine] only: two of the three dimensions at 2 together (the full
+                                            # 2 x 2 x 2 instance lemma needs 5 CPU-minutes and 5 GB: dropped)
 
 
 def voigt_translation():
@@ -332,9 +334,7 @@ def voigt_translation():
 
     names = []
     for tag, asm in VOIGT_ASSEMBLAGES.items():
-        for nm, ns, ng in VOIGT_SIZES:
-            if len(asm) == 2 and (nm, ns, ng) == (2, 2, 2):
-                continue                # 9 phase combinations x 8 grain terms: 200 kB each, nothing new
+        for nm, ns, ng in VOIGT_SIZES + (VOIGT_SIZES_A0 if tag == "0" else ()):
             names.append(register(f"voigt_a{tag}_m{nm}_s{ns}_g{ng}", asm, len(asm), [(ng, ns, ns, ng)] * nm))
     # fewer fractions than phases
     names.append(register("voigt_a01_m2_s1_g1_f1", (0, 1), 1, [(1, 1, 1, 1)] * 2))
